@@ -1,3 +1,5 @@
+import G3D.Proofs.HandlersTiePolygon
+import G3D.Proofs.HandlersTiePolyhedron
 import G3D.Props.C02
 #print axioms G3D.Props.C02.inter_flat_polygon_exact
 #print axioms G3D.Props.C02.inter_line_polygon_typed
@@ -10,3 +12,16 @@ import G3D.Props.C02
 #print axioms G3D.Props.C02.coplanar_neighbours_break_exactness
 #print axioms G3D.Props.C02.constructed_polyhedron_meets_hypothesis
 #print axioms G3D.Props.C02.inter_flat_constructed_polyhedron_exact
+#print axioms G3D.Tie.h_inter_point_convexpolygon_eq
+#print axioms G3D.Tie.h_inter_line_convexpolygon_eq
+#print axioms G3D.Tie.h_inter_plane_convexpolygon_eq
+#print axioms G3D.Tie.h_inter_segment_convexpolygon_eq
+#print axioms G3D.Tie.h_inter_convexpolygon_halfline_eq
+#print axioms G3D.Tie.h_get_segment_from_point_list_eq
+#print axioms G3D.Tie.h_get_segment_convexpolyhedron_intersection_point_set_eq
+#print axioms G3D.Tie.h_get_halfline_convexpolyhedron_intersection_point_set_eq
+#print axioms G3D.Tie.h_inter_point_convexpolyhedron_eq
+#print axioms G3D.Tie.h_inter_line_convexpolyhedron_eq
+#print axioms G3D.Tie.h_inter_plane_convexpolyhedron_eq
+#print axioms G3D.Tie.h_inter_segment_convexpolyhedron_eq
+#print axioms G3D.Tie.h_inter_convexpolyhedron_halfline_eq
